@@ -245,6 +245,21 @@ class Slot:
         return self.prefix + self.value
 
 
+def _p2wsh_pair(ws_hex):
+    """(spending tx hex, funding tx hex): a P2WSH output of the witness script and its spend with the witness [script] (no signatures)"""
+    import hashlib as _h
+    ws = bytes.fromhex(ws_hex)
+
+    def cs(n):
+        return bytes([n]) if n < 253 else b"\xfd" + n.to_bytes(2, "little") if n < 65536 else b"\xfe" + n.to_bytes(4, "little")
+    spk = b"\x00\x20" + _h.sha256(ws).digest()
+    fund = (b"\x02\x00\x00\x00" + b"\x01" + b"\x11" * 32 + b"\x00\x00\x00\x00" + b"\x00" + b"\xff\xff\xff\xff" + b"\x01" + (100000).to_bytes(8, "little") + cs(len(spk)) + spk + b"\x00" * 4)
+    txid = _h.sha256(_h.sha256(fund).digest()).digest()
+    out = (90000).to_bytes(8, "little") + b"\x01\x51"
+    spend = (b"\x02\x00\x00\x00" + b"\x00\x01" + b"\x01" + txid + b"\x00\x00\x00\x00" + b"\x00" + b"\xfd\xff\xff\xff" + b"\x01" + out + b"\x01" + cs(len(ws)) + ws + b"\x00" * 4)
+    return spend.hex(), fund.hex()
+
+
 class Base:
     def __init__(self, bid, tool, slots, klass, mode="batch", env=None, pair=False, opts=None):
         self.id, self.tool, self.slots, self.klass, self.mode = bid, tool, slots, klass, mode
@@ -355,6 +370,11 @@ def build_bases(repo):
     for g in sorted(GEN_PAIRS):
         ttx, tin = GEN_PAIRS[g]
         deb("auto-" + g, "", [O("--tx=", ttx, "tx", partner=None), O("--txin=", tin, "txin", partner=0)], [], "tx+txin auto")
+    # sessions the interpreter environment refuses to set up (a witness script above the 10,000-byte limit) and the largest it accepts:
+    # the refusal is reported with a diagnostic, through the same path for every front end
+    for nbytes in (10000, 10001):
+        ttx, tin = _p2wsh_pair("61" * (nbytes - 1) + "51")
+        deb("auto-p2wsh-script-%d-bytes" % nbytes, "", [O("--tx=", ttx, "tx", partner=None), O("--txin=", tin, "txin", partner=0)], [], "tx+txin auto refused")
     ttx, tin = txs["p2sh-multisig-2-of-2"]
     deb("select", "", [O("--tx=", ttx, "tx"), O("--txin=", tin, "txin", partner=0), O("--select=", "0", "index", n=2)], [],
         "select")
@@ -395,6 +415,7 @@ def build_bases(repo):
     debargv("script", [], "[OP_1 OP_2 OP_ADD]", [], "argv script")
     debargv("script+stack", [], "[OP_ADD]", ["1", "2"], "argv script+stack")
     debargv("none", [], None, [], "argv empty", pair=True)
+    debargv("script-10001-bytes", [], "0x" + "61" * 10000 + "51", [], "argv script refused")
     debargv("auto-p2sh-p2wpkh", [O("--tx=", txs["p2sh-p2wpkh"][0], "tx"), O("--txin=", txs["p2sh-p2wpkh"][1], "txin", partner=0)],
             None, [], "argv tx+txin auto")
 
